@@ -400,6 +400,26 @@ fn deep_cases() -> Vec<(String, String, Fmt)> {
     out
 }
 
+/// Strings offered as a disclosure inside an otherwise valid token: undecodable text of many lengths with
+/// multi-byte characters at every alignment, and base64url of non-JSON / odd JSON with non-ASCII content.
+fn garbage_disclosures() -> Vec<String> {
+    let mut out = vec![];
+    for fill in ["\u{e9}", "\u{20ac}", "\u{1F600}", "x\u{e9}", "\u{0}"] {
+        for k in 0..4 {
+            for n in [1usize, 7, 15, 16, 23, 24, 25, 31, 32, 33, 40, 47, 48, 49, 50, 63, 64, 65, 100, 127, 128, 129, 255, 256, 257, 1000] {
+                out.push(format!("{}{}", "a".repeat(k), fill.repeat(n)));
+            }
+        }
+    }
+    for text in ["[\"\u{e9}", "\u{e9}", "[\"s\", \"\u{1F600}", "{\"\u{e9}\": 1}", "\"\u{e9}\u{e9}\u{e9}\"", "[1e999]", "[\"s\", \"n\", 1e999]", "\u{feff}[\"s\",1]", "[\"s\",\"n\",1] trailing"] {
+        out.push(b64e(text.as_bytes()));
+        out.push(b64e(format!("{}{}", text, "\u{e9}".repeat(40)).as_bytes()));
+    }
+    out.push(b64e(&[0xff, 0xfe, 0xfd]));
+    out.push(b64e(&[b'[', b'"', 0xc3, b'"', b']']));
+    out
+}
+
 struct Groups {
     alpha: Vec<String>,
     max_len: usize,
@@ -410,6 +430,7 @@ struct Groups {
     sels: Vec<Map<String, Value>>,
     issuer: Vec<(Value, Strat)>,
     deep: Vec<(String, String, Fmt)>,
+    garbage_disc: Vec<String>,
     random: usize,
 }
 fn groups(tier: &str) -> Groups {
@@ -424,6 +445,7 @@ fn groups(tier: &str) -> Groups {
         sels: gen::arbitrary_selections(if quick { 3 } else { 4 }, &["a", "b", "zz"]),
         issuer: issuer_inputs(),
         deep: deep_cases(),
+        garbage_disc: garbage_disclosures(),
         random: if quick { 100_000 } else { 1_000_000 },
     }
 }
@@ -464,7 +486,7 @@ pub fn worker(args: &[String]) {
             run_one(&g, "issuer", i, &mut l);
         }
     }
-    for (name, len) in [("json_form", g.json_forms.len()), ("subst", g.subst.len()), ("c08", g.c08.len())] {
+    for (name, len) in [("json_form", g.json_forms.len()), ("subst", g.subst.len()), ("c08", g.c08.len()), ("garbage_disc", g.garbage_disc.len())] {
         for i in 0..len {
             if i % n == shard {
                 if (i / n) % 256 == 0 {
@@ -566,6 +588,18 @@ fn run_one(g: &Groups, group: &str, i: usize, l: &mut Local) {
             run_signed(&c, "c08", l);
             l.nontrivial += 1;
         }
+        "garbage_disc" => {
+            let (_, _, _, d, jwt) = valid_token();
+            let gd = &g.garbage_disc[i];
+            for fmt in codec::FMTS {
+                for list in [vec![gd.clone()], vec![d.clone(), gd.clone()], vec![gd.clone(), d.clone()]] {
+                    let sjwt = Parts { jwt: jwt.clone(), disclosures: list, kb: None }.serialize(fmt);
+                    // in the compact form a '~' inside the garbage would reframe; none of the strings has one
+                    op_string(&sjwt, fmt, "garbage_disc", l);
+                }
+            }
+            l.nontrivial += 1;
+        }
         "select" => {
             let (ci, si) = (i / g.sels.len(), i % g.sels.len());
             let (sd, fmt) = &g.sel_creds[ci];
@@ -621,6 +655,7 @@ pub fn run(rep: &Report) {
         "selector_json": {"credentials_incl_partial": g.sel_creds.len(), "selectors": g.sels.len()},
         "issuer_inputs": g.issuer.len(),
         "deep_inputs": g.deep.len(),
+        "garbage_disclosures_in_valid_token": g.garbage_disc.len(),
         "auxiliary_random_strings(sampling)": g.random}, "worker_processes": n}));
     rep.sample(json!({"group": "compact_seq", "input": nth_sequence(&g.alpha, 4, 12345)}));
     rep.sample(json!({"group": "select", "selection": g.sels[g.sels.len() / 2]}));
